@@ -185,7 +185,7 @@ def run(ctx):
             ctx.violation({"kind": "E:statistics", "gkf": txt, "error": o1[alg]["err"]}, "gama-local failed: " + o1[alg]["err"][:200]); bad += 1
             continue
         if not enet.adjusted_ok(o1[alg]):
-            ctx.hist("skipped_not_adjusted", 1)
+            ctx.skipped("skipped_not_adjusted", {"gkf": txt})
             continue
         res = o1[alg]["res"]
         ctx.hist("dof", min(res["dof"], 10))
